@@ -46,7 +46,7 @@ type receipt struct {
 	Seq     int64  `json:"seq"`
 	Node    string `json:"node"`
 	Inst    int    `json:"inst"`
-	Mode    string `json:"mode"` // ok | 500 | hang | close
+	Mode    string `json:"mode"` // ok | 500 | hang | close | aborted | a refusal status (see refusals)
 	Msgs    []rmsg `json:"msgs"`
 	Hash    string `json:"hash"`
 	Bad     string `json:"bad,omitempty"`
@@ -167,11 +167,13 @@ func (e *endpoint) ServeHTTP(w http.ResponseWriter, r *http.Request) {
 	case e.calm:
 		rc.Mode = "ok"
 	case e.outage:
-		rc.Mode = []string{"500", "close", "500"}[e.rnd.IntN(3)]
+		rc.Mode = []string{"500", "close", "500", "refuse"}[e.rnd.IntN(4)]
 	default:
 		switch p := e.rnd.IntN(100); {
-		case p < 76:
+		case p < 70:
 			rc.Mode = "ok"
+		case p < 76:
+			rc.Mode = "refuse"
 		case p < 88:
 			rc.Mode = "500"
 		case p < 94:
@@ -180,10 +182,24 @@ func (e *endpoint) ServeHTTP(w http.ResponseWriter, r *http.Request) {
 			rc.Mode = "hang"
 		}
 	}
+	status := 0
+	if rc.Mode == "refuse" {
+		// the endpoint does not take the batch and says so with a status that is
+		// neither success nor a server error
+		status = refusals[e.rnd.IntN(len(refusals))]
+		rc.Mode = strconv.Itoa(status)
+	}
 	rc.Seq = e.seq.Add(1)
 	e.receipts = append(e.receipts, rc)
 	e.mu.Unlock()
 
+	if status != 0 {
+		if status == http.StatusTooManyRequests {
+			w.Header().Set("Retry-After", "1")
+		}
+		w.WriteHeader(status)
+		return
+	}
 	switch rc.Mode {
 	case "ok":
 		w.WriteHeader(http.StatusOK)
@@ -201,6 +217,24 @@ func (e *endpoint) ServeHTTP(w http.ResponseWriter, r *http.Request) {
 		}
 		w.WriteHeader(http.StatusBadGateway)
 	}
+}
+
+// refusals are the answers of an endpoint (or of a gateway / rate limiter in
+// front of it) that has not taken the batch, expressed as a status outside
+// both the success and the server-error range. 300 and 304 carry no Location,
+// so the sender's HTTP client hands them over as they are.
+var refusals = []int{
+	http.StatusTooManyRequests, http.StatusNotFound, http.StatusRequestTimeout, http.StatusUnauthorized,
+	http.StatusForbidden, http.StatusRequestEntityTooLarge, http.StatusBadRequest, http.StatusConflict,
+	http.StatusMultipleChoices, http.StatusNotModified,
+}
+
+// answerClass names the kind of answer a payload got, for violation keys.
+func answerClass(mode string) string {
+	if n, err := strconv.Atoi(mode); err == nil && n >= 100 && n < 600 {
+		return fmt.Sprintf("%dxx", n/100)
+	}
+	return mode
 }
 
 func hashBytes(b []byte) uint64 {
